@@ -23,7 +23,11 @@ for m in muts:
             src = open(path).read()
             if src.count(m["old"]) < 1:
                 print("SKIP %s: pattern not found" % m["id"]); bad.append((m["id"], "skip")); continue
-            open(path, "w").write(src.replace(m["old"], m["new"], 1))
+            src = src.replace(m["old"], m["new"], 1)
+            for extra in m.get("also", []):
+                assert extra["old"] in src, "also-pattern not found"
+                src = src.replace(extra["old"], extra["new"], 1)
+            open(path, "w").write(src)
         alarms = []
         for pid in IDS:
             r = subprocess.run([os.path.join(VERIF, "check"), pid], stdout=subprocess.PIPE, stderr=subprocess.STDOUT, text=True)
